@@ -19,6 +19,7 @@ import (
 	"path/filepath"
 	"os"
 	"strings"
+	"time"
 
 	"github.com/idena-network/idena-go/blockchain/fee"
 	"github.com/idena-network/idena-go/blockchain/types"
@@ -257,7 +258,27 @@ func c02run(c *hx.Ctx, cs c02case) error {
 			A, B = B, A
 			c.Hit("proposer:second-replica")
 		}
+		// the one thing two correct nodes on one head do not share is the clock: sometimes the proposer's runs ahead of the
+		// validator's (theorem honest_header_accepted_iff: accepted iff not more than MaxFutureBlockOffset ahead)
+		skew := time.Duration(0)
+		if r.Intn(4) == 0 {
+			// a refused proposal costs the history up to five minutes of clock: only away from the ceremony, whose sessions
+			// the participants must not miss
+			maxSkew := 121
+			if st := A.App.State; st.ValidationPeriod() == 0 && st.NextValidationTime().Unix()-common.VerifNow().Unix() > 1200 {
+				maxSkew = 300
+			}
+			skew = time.Duration(r.Intn(maxSkew)) * time.Second
+			if maxSkew == 300 && r.Intn(2) == 0 {
+				skew = time.Duration(120+r.Intn(2)) * time.Second // the last accepted and the first refused second
+			}
+		}
+		headTime := A.Chain.Head.Time()
+		chainfx.Advance(skew)
+		nowP := common.VerifNow().UTC().Unix()
 		prop, err := A.Propose()
+		chainfx.Advance(-skew)
+		nowV := common.VerifNow().UTC().Unix()
 		if err != nil {
 			fail("C02:propose-failed", err.Error(), b)
 			return nil
@@ -268,14 +289,37 @@ func c02run(c *hx.Ctx, cs c02case) error {
 			return nil
 		}
 		var verr error
-		func() {
+		validate := func() {
 			defer func() {
 				if rec := recover(); rec != nil {
 					verr = fmt.Errorf("panic: %v", rec)
 				}
 			}()
 			_, verr = B.Chain.ValidateBlock(clone, nil, collector.NewStatsCollector())
-		}()
+		}
+		validate()
+		verdict := "acc"
+		if verr != nil {
+			verdict = "rej-other"
+			if strings.Contains(verr.Error(), "block from future") {
+				verdict = "rej-time"
+			}
+		}
+		c.Line(fmt.Sprintf("clock %d %d %d", headTime, nowP, nowV), fmt.Sprintf("time=%d %s", clone.Header.Time(), verdict))
+		if skew > 0 {
+			c.Hit("clock:proposer-ahead:" + verdict)
+		}
+		if verdict == "rej-time" {
+			// refused for the time only: not insertable now, and accepted unchanged once the validator's clock has caught up
+			if c2, e := chainfx.CloneBlock(prop.Block); e == nil {
+				if err := B.Add(c2); err == nil {
+					fail("C02:block-from-future-inserted", fmt.Sprintf("height %d: time %d inserted with the clock at %d", clone.Height(), clone.Header.Time(), nowV), b)
+					return nil
+				}
+			}
+			chainfx.Advance(skew)
+			validate()
+		}
 		if verr != nil {
 			fail("C02:honest-block-rejected", fmt.Sprintf("height %d (%d txs, flags %v): validator refuses the proposer's block: %v", clone.Height(), len(clone.Body.Transactions), clone.Header.Flags(), verr), b)
 			return nil
